@@ -1590,7 +1590,9 @@ class Comparator(BinaryOperator):
                 operand_value_map[second_operand._id_] = second_value[second_operand._id_]
                 res = self.apply_operation(operand_value_map)
                 self._is_false_ = not res
-                if res or self._yield_when_false_:
+                # What this evaluation was asked for: the same comparison may be evaluated again while this evaluation is
+                # suspended (the condition object occurs twice in the query).
+                if res or yield_when_false:
                     values = copy(first_value)
                     values.update(second_value)
                     values.update(operand_value_map)
